@@ -29,7 +29,13 @@ _C02_REQ = ["epochs", "epochs_in_leak", "epochs_finalizing", "epochs_justifying"
             "inactivity_score_decreases", "ejection_with_multi_epoch_exit_queue", "slots_events_multi",
             "epochs_phase0", "epochs_altair", "epochs_bellatrix", "epochs_capella", "epochs_deneb",
             "epochs_in_leak_phase0", "epochs_in_leak_altair", "epochs_in_leak_bellatrix", "epochs_in_leak_deneb",
-            "epochs_with_prev_attestations", "epochs_with_prev_participation", "genesis_upgrades", "probe_events"]
+            "epochs_with_prev_attestations", "epochs_with_prev_participation", "genesis_upgrades", "probe_events",
+            # queue-vs-churn classes (idle S3 family with prepared queues)
+            "deneb_activation_cap_binding", "activation_queue_exceeds_churn_pre_deneb",
+            "activation_queue_exceeds_churn_phase0", "activation_queue_exceeds_churn_altair",
+            "activation_queue_exceeds_churn_bellatrix", "activation_queue_exceeds_churn_capella",
+            "ejections_exceed_churn_phase0", "ejections_exceed_churn_altair", "ejections_exceed_churn_bellatrix",
+            "ejections_exceed_churn_capella", "ejections_exceed_churn_deneb"]
 _C01_REQ = ["blocks_phase0", "blocks_altair", "blocks_bellatrix", "blocks_capella", "blocks_deneb",
             "ops_pslash", "ops_aslash", "ops_atts", "ops_deposits", "ops_exits", "ops_bls_changes",
             "ops_atts_phase0", "ops_atts_altair", "ops_atts_deneb", "ops_exits_deneb", "ops_pslash_phase0",
